@@ -345,11 +345,13 @@ def run(pid, tier_, replay=None):
         return 1 if mine else 0
 
     plan = fixed_plans(pid) + PLANS[pid](pid, rng, quick)
+    binp = otap.build(race=(pid == "C16"))
     if pid == "C16":
-        viol, outs, nev, notes = otap.execute(plan, shards=4, timeout=1500 if quick else 7000, binp=otap.build(race=True),
+        viol, outs, nev, notes = otap.execute(plan, shards=4, timeout=1500 if quick else 7000, binp=binp,
                                               test="TestConcurrent", extra_env={"VERIF_GROUP": str(rng.choice([4, 6, 8]))})
     else:
-        viol, outs, nev, notes = otap.execute(plan, shards=12, timeout=1500 if quick else 7000)
+        viol, outs, nev, notes = otap.execute(plan, shards=12, timeout=1500 if quick else 7000, binp=binp)
+    alloc = otap.allocator_replay(binp, quick, seed) if pid == "C14" else None
     stats = otap.summarize(outs)
     found = []
     for tr, prop, clause, seq in viol:
@@ -371,6 +373,13 @@ def run(pid, tier_, replay=None):
             light.append(e2)
         found.append(dict(signature=sig, what="%s: %s in stream %s (%s)" % (pid, clause, st["id"], desc),
                           replay=dict(property=pid, clause=clause, stream=st, event_seq=seq, events=light[-4:])))
+    model_issues = []
+    if alloc:
+        for prop, clause, rec in alloc["violations"]:
+            found.append(dict(signature="%s limit=%s" % (clause, rec["limit"]), what="C14: %s by the real LimitedAllocator (limit %s) on %s"
+                              % (clause, rec["limit"], json.dumps(rec["ops"])), replay=dict(property="C14", clause=clause, allocator_case=rec)))
+        if alloc["model_issue"]:
+            model_issues.append(alloc["model_issue"])
     # coverage: distinct non-trivial streams = distinct (schema-evolution events, dictionary events, outcome) signatures
     sigs = set()
     agg = {}
@@ -399,6 +408,15 @@ def run(pid, tier_, replay=None):
                samples=samples, traces_validated_against_impl=len(stats), events_judged=nev,
                items_round_tripped=sum(s["items"] for s in stats.values()),
                observer_events=agg, optional_fields_seen=len(fields), streams=len(stats), exhaustive=False)
+    if alloc:
+        cov.update(states=alloc["states"], transitions=alloc["generated"],
+                   allocator=dict(spec="Allocator.tla / AllocObs.tla", behaviours_replayed=alloc["behaviours"], real_runs=alloc["runs"],
+                                  conformance_drift=len(alloc["drift"]), sample=alloc["sample"]))
+        cov["traces_validated_against_impl"] = cov["traces_validated_against_impl"] + alloc["runs"] - len(alloc["drift"])
+        if alloc["drift"]:
+            print("DRIFT (not a verdict): the real LimitedAllocator differs from Allocator.tla on %d sequences, e.g. %s" % (len(alloc["drift"]), json.dumps(alloc["drift"][0])))
+    for mi in model_issues:
+        print("MODEL-ISSUE (not a verdict): %s" % mi)
     assumptions = ["the generic dump of harness/otap/dump.go lists every data-model field of docs/data_model.md",
                    "values come from finite alphabets and a seeded generator: a lossy encoding of a value class no generator produces is not found",
                    "RoundTrip.tla applies exactly the four documented normalisations to both sides"]
@@ -413,4 +431,6 @@ def run(pid, tier_, replay=None):
     C.write_evidence(pid, tier_, registry.CHECKS[pid]["level"], cov, assumptions, len(found))
     print("%s: %d streams, %d batches, %d items round-tripped, %d events judged by TLC, %d distinct non-trivial; %d violations"
           % (pid, len(stats), cov["evaluations"], cov["items_round_tripped"], nev, len(sigs), len(found)))
+    if model_issues and rc == 0:
+        return 2
     return rc
